@@ -16,7 +16,7 @@ import (
 
 func init() {
 	mc.Register(&mc.Check{ID: "C09", Category: "exploration",
-		Rule:   "cases: every truncation length, every single-bit mutant, every boundary value of each of the nine size/type fields and all pairs of them, trailing-byte variants of honest quotes; and every structurally valid message from a product of field lengths/contents; each compared against an independent layout parser. Non-trivial: differs from the honest baseline; distinct by canonical id",
+		Rule:   "cases: every truncation length, every single-bit mutant, every boundary value of each of the nine size/type fields and all pairs of them, trailing-byte variants of honest quotes; and every structurally valid message from a product of field lengths/contents; each compared against an independent layout parser; every 16-bit size/type field at all 65536 values and every 32-bit one at 0..len+64 and the top 64 values; every fixed-length sequence of parse / serialise / serialise-parts calls over 5 quotes with all earlier results re-compared after each step. Non-trivial: differs from the honest baseline; distinct by canonical id",
 		Assume: []string{"the reference layout table was transcribed from Intel's DCAP v4 quote format, not from abi.go", "random and coverage-guided mutation named in the quantifier are sampling and are not performed"},
 		Run:    runC09})
 }
